@@ -318,6 +318,11 @@ def build_request(uni, in_prot, rclass, rng):
         ctype = 'multipart/related; boundary=SIMBND; start="<root>"'
         if how == 'ok':
             body = mp([root, att])
+        elif how == 'root_only':
+            body = mp([root])
+        elif how == 'root_only_charset':
+            body = mp([root])
+            ctype += '; charset=utf-8'
         elif how == 'no_cid':
             body = mp([root, (b'Content-Type: application/octet-stream',
                               b'abc')])
